@@ -432,7 +432,6 @@ class Run(object):
         self.pending = {}
         self.steps = {i: [] for i in range(len(self.models))}
         self.last_src = {i: None for i in range(len(self.models))}     # (scope prefix path, stored source path)
-        self.phantom = []       # names (read at the root) of the children of compound states added later
         cls = machine_class(self.nested)
         o = case['opts']
         kw = dict(model=self.models, transitions=[trans_arg(t) for t in case['transitions']],
@@ -481,8 +480,6 @@ class Run(object):
             elif kind == 'add_state':
                 self.machine.add_states(state_arg(op[1]))
                 self.states.append(copy.deepcopy(op[1]))
-                if self.nested:
-                    self.phantom += [path_of(p) for c in op[1]['children'] for p in rel_paths(c)]
                 self.regen_all()
             elif kind == 'add_transition':
                 self.machine.add_transition(**trans_arg(op[1]))
@@ -572,11 +569,10 @@ def enc_step(s):
     return [1] + enc_list(s[1], enc_nats)
 
 
-def enc_request(run, variant, mi, roi):
+def enc_request(run, mi, roi):
     o = run.case['opts']
     rows = run.table()
-    req = [int(run.nested), int(o['show_conditions']), int(o['show_attrs']),
-           int(variant['fix_prev']), int(variant['fix_roi']), int(variant['fix_flat_final'])]
+    req = [int(run.nested), int(o['show_conditions']), int(o['show_attrs'])]
     req += enc_list(run.states, lambda s: enc_state(s, (), rows))
     req += enc_list([r for r in rows if r['pre'] == ()], enc_row)
     req += enc_opt(path_of(run.case['initial']), enc_nats)
@@ -640,59 +636,8 @@ def decode_diagram(ans):
 
 
 # ---------------------------------------------------------------------------------------------
-# variants: which of the three known defects the code under test has (probed on fixed witnesses)
-# ---------------------------------------------------------------------------------------------
-
-def probe_variant():
-    from transitions.extensions import GraphMachine, HierarchicalGraphMachine
-    v = {'fix_prev': False, 'fix_roi': False, 'fix_flat_final': False}
-    try:
-        m = HierarchicalGraphMachine(states=['s0', {'name': 's1', 'children': ['s0', 's2'], 'initial': 's0',
-                                                    'transitions': [['e0', 's0', 's2']]}],
-                                     initial='s1', graph_engine='mermaid', auto_transitions=False)
-        m.e0()
-        v['fix_prev'] = 'Class s0 s_previous' not in m.get_graph().draw(None)
-    except Exception:
-        pass
-    try:
-        m = GraphMachine(states=['s0', 's1'], initial='s0', graph_engine='mermaid', auto_transitions=False,
-                         transitions=[{'trigger': 'e0', 'source': 's1', 'dest': None}])
-        m.get_graph(show_roi=True).draw(None)
-        v['fix_roi'] = True
-    except Exception:
-        pass
-    try:
-        m = GraphMachine(states=['s0', {'name': 's1', 'final': True}], initial='s0', graph_engine='mermaid',
-                         auto_transitions=False)
-        v['fix_flat_final'] = 's1 --> [*]' in m.get_graph().draw(None)
-    except Exception:
-        pass
-    return v
-
-
-# ---------------------------------------------------------------------------------------------
 # the oracle: the clauses of C16 stated directly on the parsed diagram and the live machine
 # ---------------------------------------------------------------------------------------------
-
-SIG_PREV = 'C16.previous.scope-relative-name'
-SIG_ROI = 'C16.roi.keyerror-internal-transition'
-SIG_FINAL = 'C16.final.flat-not-marked'
-SIG_PHANTOM = 'C16.add_states.compound-phantom-states'
-
-
-def phantom_states(run, d):
-    """declared names beyond the machine's states that are children (read as root names) of a compound
-    state added with add_states after the model was registered"""
-    if not run.phantom:
-        return []
-    extra = [n.name for n, _ in d.all]
-    for p in desc_index(run.states):
-        if p in extra:
-            extra.remove(p)
-    if extra and all(p in run.phantom for p in extra):
-        return sorted(set(extra))
-    return []
-
 
 def desc_index(states, pre=()):
     """{path: (state description, parent path or None)}"""
@@ -728,10 +673,6 @@ def oracle_full(run, mi, d):
     """clauses on the full diagram `d` (Parsed) of model `mi`; returns [(what, details, signature)]"""
     fails = []
     idx = desc_index(run.states)
-    ph = phantom_states(run, d)
-    if ph:
-        # the markup itself is corrupted (stale root 'children' key): nothing else can be judged on this diagram
-        return [('phantom-states', {'phantom': [name_of(p) for p in ph]}, SIG_PHANTOM)]
     # -- every state declared exactly once, children inside their parents, regions separated
     declared = [n.name for n, _ in d.all]
     if sorted(declared) != sorted(idx):
@@ -757,8 +698,8 @@ def oracle_full(run, mi, d):
             fails.append(('regions', {'state': name_of(n.name), 'why': 'separator in a non-parallel state'}, 'C16.regions'))
         # -- final states and initial substates are marked
         if bool(st['final']) != n.final:
-            sig = SIG_FINAL if (not run.nested and st['final'] and not n.final) else 'C16.final'
-            fails.append(('final-marker', {'state': name_of(n.name), 'final': st['final'], 'marked': n.final}, sig))
+            fails.append(('final-marker', {'state': name_of(n.name), 'final': st['final'], 'marked': n.final},
+                          'C16.final'))
         want_init = (n.name + path_of(st['initial'])) if (kids and st['initial'] and not st['parallel']) else None
         if n.init != want_init:
             fails.append(('initial-marker', {'state': name_of(n.name), 'marked': n.init and name_of(n.init),
@@ -803,11 +744,9 @@ def oracle_activity(run, mi, d):
             fails.append(('active-style', {'state': name_of(n.name), 'current': sorted(map(name_of, cur))},
                           'C16.active.other'))
         if n.cls == 2 and n.name != last_global:
-            sig = 'C16.previous.other'
-            if last and last[0] and n.name == last[1]:
-                sig = SIG_PREV      # the scope-relative name of the last source, read as a global name
             fails.append(('previous-style', {'state': name_of(n.name),
-                                             'last_source': last_global and name_of(last_global)}, sig))
+                                             'last_source': last_global and name_of(last_global)},
+                          'C16.previous.other'))
         if isinstance(n.cls, tuple):
             fails.append(('style-class', {'state': name_of(n.name), 'class': n.cls[1]}, 'C16.style.unknown'))
         if parent is None:      # top-level states are the ones the Mermaid backend is able to style
@@ -829,26 +768,9 @@ def oracle_roi(run, mi, d):
         fails.append(('roi-active-missing', {'missing': miss}, 'C16.roi.active'))
     rows = [r for r in run.table() if (r['pre'] + r['src']) in cur]
     exp = expected_labels(rows, run.case['opts']['show_conditions'])
-    ph = set(name_of(p) for p in run.phantom)
     for w, det, sig in oracle_edges(run, d, exp, exact=False):
-        sig = sig.replace('C16.edges', 'C16.roi.edges')
-        if w == 'edge-label' and det['edge'][0] in ph and all(x in det['labels'] for x in det['expected']):
-            sig = SIG_PHANTOM       # extra labels from the stale markup of a compound add_states (open finding)
-        fails.append(('roi-' + w, det, sig))
+        fails.append(('roi-' + w, det, sig.replace('C16.edges', 'C16.roi.edges')))
     for (s, t) in exp:
         if t in idx and t not in declared:
             fails.append(('roi-target-missing', {'edge': [name_of(s), name_of(t)]}, 'C16.roi.target'))
     return fails
-
-
-def roi_keyerror_signature(run, mi):
-    """the known ROI crash needs an internal transition whose (global) source is not active"""
-    cur = closure(flatten_state(run.models[mi].state))
-    for r in run.table():
-        if r['dst'] is None and (r['pre'] + r['src']) not in cur:
-            return SIG_ROI
-    if run.phantom:
-        # no live internal transition explains it: the stale markup left by a compound add_states still lists
-        # transitions (also removed ones) of the added state's children — the phantom-state finding
-        return SIG_PHANTOM
-    return 'C16.roi.exception'
